@@ -7,6 +7,7 @@ from checks import gpbft_common as g
 def run(ctx):
     ctx.prove()
     g.network(ctx, "C03-")
+    g.validation_gate(ctx)
     return ctx.finish(
         rule=g.RULE + " Oracle C03: per decision — instance, round 0, DECIDE, supplemental data, strictly increasing signer "
                       "indices in range with non-zero scaled power forming a strong quorum; aggregate verifies over the decided "
